@@ -7,6 +7,7 @@ package main
 import (
 	"bufio"
 	"encoding/binary"
+	"fmt"
 	"io"
 	"net"
 	"strings"
@@ -32,6 +33,10 @@ type vfStubNsqd struct {
 	conns  []net.Conn
 	notify chan struct{}
 	delay  time.Duration // slow destination: wait this long before a PUB is recorded and answered
+	// audit round 7 (C14): a destination that REFUSES bodies longer than maxBody (0 = no limit). maxVerb "" answers as nsqd
+	// does for a body above --max-msg-size (E_BAD_MESSAGE frame, then the connection is closed), "err" answers E_PUB_FAILED.
+	maxBody int
+	maxVerb string
 }
 
 func vfNewStubNsqd() *vfStubNsqd {
@@ -175,6 +180,9 @@ func (s *vfStubNsqd) serve(c net.Conn) {
 			if len(s.next) > 0 {
 				verb, s.next = s.next[0], s.next[1:]
 			}
+			if s.maxBody > 0 && len(body) > s.maxBody {
+				verb = "toobig" + s.maxVerb
+			}
 			s.pubs = append(s.pubs, vfStubPub{Topic: w[1], Body: body, Verb: verb})
 			s.mu.Unlock()
 			select {
@@ -189,6 +197,11 @@ func (s *vfStubNsqd) serve(c net.Conn) {
 			case "close":
 				return
 			case "stall":
+			case "toobig":
+				vfStubFrame(c, 1, "E_BAD_MESSAGE PUB message too big")
+				return
+			case "toobigerr":
+				vfStubFrame(c, 1, "E_PUB_FAILED PUB failed")
 			}
 		case "SUB":
 			s.mu.Lock()
@@ -206,4 +219,26 @@ func (s *vfStubNsqd) serve(c net.Conn) {
 			return
 		}
 	}
+}
+
+// vfGiveUpAttempts: the built-in attempts plus those of the committed replay file (lines `tool=<tool> … attempts=N`)
+func vfGiveUpAttempts(tool string, base []uint16) []uint16 {
+	for _, l := range vfKnownLines("gives-up-after-max-attempts") {
+		if !strings.Contains(l, "tool="+tool+" ") {
+			continue
+		}
+		for _, f := range strings.Fields(l) {
+			var n uint16
+			if _, err := fmt.Sscanf(f, "attempts=%d", &n); err == nil {
+				dup := false
+				for _, b := range base {
+					dup = dup || b == n
+				}
+				if !dup {
+					base = append(base, n)
+				}
+			}
+		}
+	}
+	return base
 }
